@@ -1,0 +1,32 @@
+//go:build verif
+
+// Contracts for package routing, read by /verif/govc (comment-only file).
+
+package routing
+
+// C01 (lowering): every key group of every condition of a rule is handed to its parser with the
+// outbound that encodes the rule structure: OR while more alternatives of the same condition follow,
+// AND at the end of a condition that is not the rule's last, and the rule's own outbound (name, mark,
+// must) only on the last key group of the last condition.
+//@ func (*RulesBuilder).Apply
+//@   nonilcheck
+//@   modifies *
+//@   at call dyn:FunctionParser#1 assert overrideOutbound != nil && overrideOutbound.Mark == outbound.Mark && overrideOutbound.Must == outbound.Must
+//@   at call dyn:FunctionParser#1 assert jMatchSet < len(keyOrder) - 1 ==> overrideOutbound.Name == consts.OutboundLogicalOr.String()
+//@   at call dyn:FunctionParser#1 assert jMatchSet == len(keyOrder) - 1 && iFunc < len(rule.AndFunctions) - 1 ==> overrideOutbound.Name == consts.OutboundLogicalAnd.String()
+//@   at call dyn:FunctionParser#1 assert jMatchSet == len(keyOrder) - 1 && iFunc == len(rule.AndFunctions) - 1 ==> overrideOutbound.Name == outbound.Name
+//@   at call dyn:FunctionParser#1 assert a1 == f && a2 == key
+
+// The outbound of a rule: mark is the parsed 32-bit value of the `mark` parameter, must is set exactly by
+// a bare `must` parameter, and any other parameter is an error (never silently ignored).
+//@ func ParseOutbound
+//@   requires rawOutbound != nil
+//@   nonilcheck
+//@   ensures err == nil ==> outbound != nil && outbound.Name == rawOutbound.Name
+//@   ensures err == nil ==> (outbound.Must <==> (exists k int :: 0 <= k && k < len(rawOutbound.Params) && rawOutbound.Params[k].Key == "" && rawOutbound.Params[k].Val == "must"))
+//@   ensures err == nil ==> (forall k int :: 0 <= k && k < len(rawOutbound.Params) ==> rawOutbound.Params[k].Key == consts.OutboundParam_Mark || (rawOutbound.Params[k].Key == "" && rawOutbound.Params[k].Val == "must"))
+//@   ensures err != nil ==> outbound == nil
+//@   loop 1
+//@     invariant outbound != nil && fresh(outbound) && outbound.Name == rawOutbound.Name
+//@     invariant outbound.Must <==> (exists k int :: 0 <= k && k < $idx && rawOutbound.Params[k].Key == "" && rawOutbound.Params[k].Val == "must")
+//@     invariant forall k int :: 0 <= k && k < $idx ==> rawOutbound.Params[k].Key == consts.OutboundParam_Mark || (rawOutbound.Params[k].Key == "" && rawOutbound.Params[k].Val == "must")
